@@ -9,11 +9,12 @@ from engine.model import src, stmt_key, dotted, AnalysisError
 from engine.project import feasible_paths, eval_norm
 from engine import pat
 from engine.twins import TwinSpec, project, first_difference, count_events
-from engine.util import own_nodes, calls_with_nodes, where
+from engine.util import own_nodes, calls_with_nodes, where, optional_numeric_params, truthiness_uses
 
 RULES = {
     "R-18.1": "an exchange function returns a message only on paths that are infeasible when q.is_response(r) is false (checked here or, for ignore_errors, in receive_udp with the query), or returns the result of another checked exchange; receive_udp tests the source address before parsing",
     "R-18.2": "each dns.query function and its dns.asyncquery twin project onto the same sequence of decisions (recv, destination test, from_wire with its keyword set, Truncated/generic arms, is_response, raise/continue/return)",
+    "R-18.4": "deadline plumbing: timeout / expiration parameters of the query functions and async backends are tested for presence by identity with None, never by truthiness (a timeout of 0 means 'already expired', not 'wait forever')",
     "R-18.3": "stream framing: read loops end only at count == 0, an empty read raises EOFError, writes advance by what was sent, the length prefix is 2 octets big-endian on both sides",
 }
 
@@ -262,12 +263,27 @@ def run(model, rep, tier):
     wf = model.func("dns.query._wait_for")
     rep.check("raise dns.exception.Timeout" in src(wf.node), "R-18.3", wf.qualname, where(wf, wf.node), "an expired deadline raises Timeout", "_wait_for no longer raises Timeout at the deadline", stmt="deadline")
     rep.assume("socket / backend objects behave as documented (recv returns b'' only at end of stream; send returns the count sent)")
+    # ---------------------------------------------------------------- R-18.4
+    n_opt = 0
+    for f in sorted(model.all_functions(), key=lambda g: g.qualname):
+        if not f.module.name.startswith(("dns._asyncio_backend", "dns._trio_backend", "dns.asyncbackend", "dns._asyncbackend", "dns.query", "dns.asyncquery")):
+            continue
+        names = optional_numeric_params(f) | {p_ for p_ in f.params() if p_ in ("timeout", "expiration", "lifetime")}
+        if not names:
+            continue
+        n_opt += len(names)
+        for (n_, nm, how) in truthiness_uses(f.node, names):
+            rep.bad("R-18.4", f.qualname, where(f, n_), f"`{nm}` is a deadline and 0 is a legitimate value, but it is {how}: 0 is taken for 'absent' (an expired deadline turns into an unbounded wait instead of dns.exception.Timeout)", stmt=f"presence {nm}")
+    rep.floor("R-18.4-optional", n_opt, 40)
+    rep.ok("R-18.4", "dns.query / dns.asyncquery / backends", "-", f"{n_opt} optional numeric parameters are only ever tested with `is None` / `is not None`", stmt="presence-tests")
     rep.meta["explanation"] = (
         "Path-feasibility argument for 'nothing returned unchecked' (each returning path becomes infeasible when is_response is assumed false, under each value of ignore_errors), "
         "event projection and comparison of 11 sync/async twin pairs, and loop-shape rules for stream framing. Behaviour under every datagram sequence and stream split is NOT enumerated.")
 
 
 WITNESSES = [
+    {"id": "c18-asyncio-timeout-zero-means-forever", "rule": "R-18.4", "file": "dns/_asyncio_backend.py", "expect": "fires",
+     "old": "async def _maybe_wait_for(awaitable, timeout):\n    if timeout is not None:", "new": "async def _maybe_wait_for(awaitable, timeout):\n    if timeout:"},
     {"id": "c18-async-tcp-unchecked", "rule": "R-18.1", "file": "dns/asyncquery.py", "expect": "fires",
      "old": "        (r, received_time) = await receive_tcp(\n            s, expiration, one_rr_per_rrset, q.keyring, q.mac, ignore_trailing\n        )\n        r.time = received_time - begin_time\n        if not q.is_response(r):\n            raise BadResponse\n        return r",
      "new": "        (r, received_time) = await receive_tcp(\n            s, expiration, one_rr_per_rrset, q.keyring, q.mac, ignore_trailing\n        )\n        r.time = received_time - begin_time\n        return r"},
